@@ -54,9 +54,9 @@ impl std::fmt::Display for FeelZone {
       FeelZone::Local => write!(f, ""),
       FeelZone::Offset(offset) => {
         let sign = if *offset < 0 { '-' } else { '+' };
-        let hours = offset.abs() / 3_600;
-        let minutes = offset.abs().rem(3_600).div(60);
-        let seconds = offset.abs().rem(3_600).rem(60);
+        let hours = offset.unsigned_abs() / 3_600;
+        let minutes = offset.unsigned_abs().rem(3_600).div(60);
+        let seconds = offset.unsigned_abs().rem(3_600).rem(60);
         if seconds > 0 {
           write!(f, "{}{:02}:{:02}:{:02}", sign, hours, minutes, seconds)
         } else {
